@@ -112,3 +112,38 @@ func VerifC05_q_configureAgree() {
 	}
 	verifAssert("C05/configure-agree", w.agree(), "ConfigurePool built a table that disagrees with the store")
 }
+
+// BOUND: 4 pool topologies; pre-state: any subset of IPs allocated (symbolic owner, policy, uid, node), memory built from it; then another writer (a second galaxy-ipam instance, an administrator) creates an object for an address the tables take for free (symbolic owner key out of 5), whose watch event has not arrived; one allocating operation with symbolic arguments (AllocateSpecificIP, AllocateInSubnet, AllocateInSubnetsAndIPRange with 1..2 ranges). Memory must never name an owner for an address whose stored object names another one, and the other writer's object stays as it is
+func VerifC05_q_foreignObjectNotAdopted() {
+	w := vNewWorld(nondetChoice(VNumTopologies))
+	w.symbolicStore(false)
+	if err := w.configure(); err != nil {
+		return
+	}
+	verifAssume(w.agree())
+	x := w.ips[nondetChoice(len(w.ips))]
+	if _, taken := w.store.Objs[x]; taken {
+		return
+	}
+	foreign := newFIPCrd(x)
+	foreign.Spec.Key = nondetPick(vKeys...)
+	foreign.Spec.Policy = constant.ReleasePolicyNever
+	foreign.Spec.Attribute = vAttrText("n9", "U9")
+	w.store.Objs[x] = foreign
+	op := []int{0, 1, 7}[nondetChoice(3)]
+	_ = w.doOp(op)
+	verifReach("allocation-returned")
+	for _, ip := range w.ips {
+		obj, inStore := w.store.Objs[ip]
+		fip, inAlloc := w.ipam.allocatedFIPs[ip]
+		if inAlloc {
+			verifAssert("C05/memory-owner-is-stored-owner", inStore && fip.Key == obj.Spec.Key, "memory names an owner for "+ip+" that the store does not name")
+		}
+	}
+	obj, still := w.store.Objs[x]
+	node, uid := "", ""
+	if still {
+		node, uid = vAttrOf(obj)
+	}
+	verifAssert("C05/foreign-object-untouched", still && obj.Spec.Key == foreign.Spec.Key && node == "n9" && uid == "U9", "an object another writer created for "+x+" was overwritten or deleted by an allocation")
+}
